@@ -115,7 +115,13 @@ def _gen_value(rng, model, container_path, swarm):
                 tgt = container_path + [name]  # alias whose target path is its own path
             return {"new": "alias", "name": name, "tstr": ".".join(tgt)}
         return {"new": "alias", "name": name, "tobj": _gen_path(rng, model, non_alias=rng.random() < 0.8)}
-    return {"new": rng.choice(KINDS[1:] if rng.random() < 0.8 else KINDS), "name": name}
+    kind = rng.choice(KINDS[1:] if rng.random() < 0.8 else KINDS)
+    spec = {"new": kind, "name": name}
+    if kind == "class" and swarm.get("inheritance") and rng.random() < 0.6:
+        classes = [list(p) for p, n in model.walk() if n.kind == "class" and list(p) != container_path + [name]]
+        if classes:
+            spec["bases"] = [".".join(rng.choice(classes))]
+    return spec
 
 
 def _alphabet():
@@ -176,6 +182,7 @@ def generate(rng, opts):
         },
         "producer_only": rng.random() < 0.3,
         "preparent": rng.random() < 0.5,
+        "inheritance": rng.random() < 0.4,
     }
     if opts.get("no_moves"):
         swarm["p_detached"] = 0.0
@@ -295,7 +302,9 @@ class Executor:
             elif kind == "module":
                 real = g.Module(name, filepath=Path(f"/nonexistent/u{node.uid}/{name}.py"), **kw)
             elif kind == "class":
-                real = g.Class(name, **kw)
+                real = g.Class(name, bases=list(spec.get("bases", [])), **kw)
+                if spec.get("bases"):
+                    tags.append("has-bases")
             elif kind == "function":
                 real = g.Function(name, **kw)
             else:
@@ -430,6 +439,15 @@ class Executor:
             m.detached.append(node)
         if self.model_only:
             return
+        if node is None and parent is not None and parent.kind == "class" and op["api"] == "delitem":
+            rp = self.objs.get(parent.uid)
+            try:
+                inherited = path[-1] in rp.inherited_members
+            except Exception:  # noqa: BLE001
+                inherited = True
+            if inherited:
+                ctx.log("skip", "consumer-API deletion of a merely inherited name (not judged)")
+                return
         before = self.snapshot() if expect != "ok" else None
         base_path, key = self.key_and_base(op["form"], path)
         base = self.objs[0] if not base_path else self._lookup_real(base_path)
@@ -641,6 +659,9 @@ class Executor:
                     r5 = robj.get_member(name)
                     r6 = robj[name]
                 except Exception as e:  # noqa: BLE001
+                    if self._broken_inheritance_on_path(p):
+                        ctx.probe("lookup-through-class-with-non-class-base")
+                        continue
                     ctx.fail("I3-lookup", f"{dotted}: lookup raised {type(e).__name__}: {e}", exc=e)
                     return False
                 if not (r1 is co and r2 is co and r3 is co and r4 is co and r5 is co and r6 is co):
@@ -711,6 +732,29 @@ class Executor:
 
     def _moved_with_ancestor(self, node):
         return node.uid in self.moved_inside
+
+    def _broken_inheritance_on_path(self, p, seen=None):
+        """True when a class on the path has a base that does not (any longer) resolve to a class: the consumer API
+        merges inherited members and cannot do so then - the history made the *input* invalid Python."""
+        seen = seen if seen is not None else set()
+        if tuple(p) in seen:
+            return True  # cyclic inheritance
+        seen.add(tuple(p))
+        obj = self.coll
+        for part in p:
+            obj = obj.members.get(part)
+            if obj is None or obj.is_alias:
+                return False
+            if obj.kind.value == "class":
+                for base in obj.bases:
+                    cur = self.coll
+                    for bp in str(base).split("."):
+                        cur = cur.members.get(bp) if cur is not None and not getattr(cur, "is_alias", False) else None
+                    if cur is None or getattr(cur, "is_alias", True) or cur.kind.value != "class" or cur is obj:
+                        return True
+                    if self._broken_inheritance_on_path(str(base).split("."), seen):
+                        return True
+        return False
 
     def _attached_real(self, obj):
         return any(a is obj for _, a in self.real_aliases())
